@@ -91,7 +91,7 @@ def read_records(root: Path) -> List[Dict[str, Any]]:
 
 
 def run_traced(nodes: List[Dict[str, Any]], data: Any, ctx: Dict[str, Any], *, detail: str = "hash",
-               mode: str = "file", keep: bool = False, orchestrator=None, scramble: bool = False) -> Dict[str, Any]:
+               mode: str = "file", keep: bool = False, orchestrator=None, scramble: bool = False, prior_run: bool = False) -> Dict[str, Any]:
     """Execute with tracing; returns the observation of seams.run_nodes plus
     records, handles_closed, t0/t1 (epoch seconds bracketing the call)."""
     from .seams import run_nodes
@@ -101,6 +101,13 @@ def run_traced(nodes: List[Dict[str, Any]], data: Any, ctx: Dict[str, Any], *, d
     if mode == "dir.dotted":            # an EXISTING directory whose name has a suffix is still a directory
         target = tmp / "traces.v2"
         target.mkdir()
+    if prior_run and mode == "file":
+        # FILE SYSTEM STATE: the trace file already exists (an earlier run of the same script wrote to it a moment ago);
+        # the run under observation appends to it
+        d0 = make_driver(str(target), "hash")
+        run_nodes([{"processor": "FloatDataSource"}], None, {}, trace=d0)
+        d0.close()
+        time.sleep(0.002)
     drv = make_driver(str(target), detail)
     t0 = time.time()
     obs = run_nodes(nodes, data, ctx, trace=drv, orchestrator=orchestrator, scramble=scramble)
@@ -111,6 +118,10 @@ def run_traced(nodes: List[Dict[str, Any]], data: Any, ctx: Dict[str, Any], *, d
     obs["handles_closed"] = all(h.closed for h in drv.handles)
     try:
         obs["records"] = read_records(target) if target.exists() else []
+        if prior_run and mode == "file":
+            starts = [i for i, r in enumerate(obs["records"]) if r.get("record_type") == "pipeline_start"]
+            if len(starts) >= 2:
+                obs["records"] = obs["records"][starts[-1]:]
     except Exception as exc:
         obs["records"] = []
         obs["read_error"] = f"{type(exc).__name__}: {exc}"
